@@ -139,6 +139,25 @@ ValuesMust(reps, RL, n, lo, hi) ==
 ValuesMay(reps, RL, n) == { Strip(r.lbls, RL)[n] : r \in { x \in reps : n \in DOMAIN Strip(x.lbls, RL) } }
 NoDuplicates(s) == \A i, j \in DOMAIN s : i # j => s[i] # s[j]
 
+(* the downsampled form of a sample sequence: windows of res grid points (grid: t = idx*step+off), *)
+(* one sample per window at the window's last grid point                                           *)
+AggForm(ss, res, step, off) ==
+    LET win(x) == (((x[1] - off) \div step) + res - 1) \div res
+        ws == SetToSortSeq({ win(ss[i]) : i \in DOMAIN ss }, LAMBDA a, b : a < b)
+        mem(w) == SelectSeq(ss, LAMBDA x : win(x) = w)
+        tw(w) == w * res * step + off
+        vals(w) == [i \in DOMAIN mem(w) |-> mem(w)[i][2]]
+        sum(w) == FoldLeft(LAMBDA a, b : a + b, 0, vals(w))
+        mn(w) == CHOOSE v \in RangeOf(vals(w)) : \A u \in RangeOf(vals(w)) : v <= u
+        mx(w) == CHOOSE v \in RangeOf(vals(w)) : \A u \in RangeOf(vals(w)) : v >= u
+    IN [count   |-> [i \in DOMAIN ws |-> <<tw(ws[i]), Len(mem(ws[i]))>>],
+        sum     |-> [i \in DOMAIN ws |-> <<tw(ws[i]), sum(ws[i])>>],
+        min     |-> [i \in DOMAIN ws |-> <<tw(ws[i]), mn(ws[i])>>],
+        max     |-> [i \in DOMAIN ws |-> <<tw(ws[i]), mx(ws[i])>>],
+        counter |-> [i \in DOMAIN ws |-> <<tw(ws[i]), vals(ws[i])[Len(vals(ws[i]))]>>],
+        avg     |-> [i \in DOMAIN ws |-> <<tw(ws[i]), sum(ws[i]) \div Len(mem(ws[i]))>>]]
+NoAgg == [count |-> <<>>, sum |-> <<>>, min |-> <<>>, max |-> <<>>, counter |-> <<>>, avg |-> <<>>]
+
 (* ======================= algorithm level =============================== *)
 (* Chunks as the querier sees them: [min, max, samples, tie].  Two chunks with *)
 (* the same samples have the same bytes (XOR encoding is a function of the     *)
@@ -147,6 +166,15 @@ NoDuplicates(s) == \A i, j \in DOMAIN s : i # j => s[i] # s[j]
 (* the proxy gives to different chunks with equal [min,max].                   *)
 ChunkOf(r, c, tie) ==
     LET ss == SubSeq(r.samples, c.lo, c.hi) IN
+    [min |-> ss[1][1], max |-> ss[Len(ss)][1], samples |-> ss, tie |-> tie]
+
+(* querier: maxResolutionFromSelectHints *)
+MaxResFromHints(maxres, rng, fn) ==
+    IF rng > 0 /\ fn \in TwoSampleFuncs THEN (IF rng \div 2 < maxres THEN rng \div 2 ELSE maxres) ELSE maxres
+(* chunkSeries.Iterator: getFirstIterator(c.<aggregate of the function>, c.Raw); the default        *)
+(* COUNT+SUM selection reads raw data as it is and downsampled data as sum/count                    *)
+ChunkOfEff(r, c, served, fn, tie) ==
+    LET ss == EffChunk(r, c, served, fn) IN
     [min |-> ss[1][1], max |-> ss[Len(ss)][1], samples |-> ss, tie |-> tie]
 
 (* A store returns the chunks that overlap the requested range.  *)
